@@ -431,6 +431,7 @@ def run(tier):
     # ---------------- R5
     rule_R5(res, prog)
     rule_R3(res, prog)
+    rule_R6(res, prog)
     res.floor("C19.R1", 150)
     res.floor("C19.R2", 3)
     res.floor("C19.R3", 30)
@@ -802,3 +803,80 @@ def rule_R5(res, prog):
                         fn.name, name, alen, bad[1], bad[0]), file=fn.relfile, line=bad[0])
             res.instance("C19.R5", "%s: local pointer array %s[%d] (zero-filled=%s, fill loops=%d, full-release sites=%d)" % (
                 fn.name, name, alen, zero, len(loop_stores), len(full)), not bad, finding=f)
+
+
+def rule_R6(res, prog):
+    """A length field that describes an allocation stays consistent when the allocation fails: for `X->p = alloc(.. X->pLen ..)`
+    (the length was stored before the buffer exists), every path on which the result is NULL either leaves through a
+    certain error return or clears the length before the function returns.  Otherwise later code copies pLen bytes
+    from / to a NULL p."""
+    from sa import cfgutil as cu
+    from sa.pp import pp
+    rid = "C19.R6"
+    res.rule(rid, "after a failed allocation of X->p sized by X->pLen, the length is cleared (or the function fails) on every path")
+    n = 0
+    for fn in sorted(prog.functions.values(), key=lambda f: f.qname):
+        if fn.relfile.startswith(("crypto/test", "matrixssl/test", "apps/", "core/test")):
+            continue
+        gf = None
+        for b in fn.blocks:
+            for idx, ln, x in cu.block_exprs(b):
+                for node in walk(x):
+                    if node.get("k") != "bin" or node["op"] != "=":
+                        continue
+                    l = strip(node["l"])
+                    r = strip(node["r"])
+                    while r is not None and r.get("k") == "cast":
+                        r = strip(r["e"])
+                    if l is None or l.get("k") != "mem" or r is None or r.get("k") != "call" or not alloc_call(r):
+                        continue
+                    lens = [m for a in r.get("a", []) for m in walk(a) if m.get("k") == "mem" and m.get("f") != l["f"] and
+                            m.get("f", "").lower().startswith(l["f"].lower()[:6]) and
+                            cu.ftext(strip(m.get("b") or m.get("e") or {})) == cu.ftext(strip(l.get("b") or l.get("e") or {}))]
+                    if not lens:
+                        continue
+                    L = lens[0]
+                    ptxt, ltxt = cu.ftext(l), cu.ftext(L)
+                    n += 1
+                    if gf is None:
+                        gf = cu.guard_facts(fn)
+
+                    def nonnull_edge(bb, k, ptxt=ptxt):
+                        t = bb.get("term")
+                        if t is None or "c" not in t or len(bb["succ"]) != 2:
+                            return False
+                        for (txt, tr, nd) in cu._cond_atoms(t["c"], k == 0):
+                            nd = strip(nd)
+                            if not tr or nd is None:
+                                continue
+                            if cu.ftext(nd) == ptxt:
+                                return True
+                            if nd.get("k") == "bin" and nd["op"] == "=" and cu.ftext(strip(nd["l"])) == ptxt:
+                                return True
+                        return False
+
+                    def clears(e, ltxt=ltxt, ptxt=ptxt):
+                        for m in walk(e):
+                            if m.get("k") == "bin" and m["op"] == "=":
+                                lt = cu.ftext(strip(m["l"]))
+                                r_ = strip(m["r"])
+                                if lt == ltxt and r_ is not None and r_.get("k") == "int" and r_["v"] == 0:
+                                    return True
+                                if lt == ptxt and m is not node:
+                                    return True        # the pointer is re-assigned: a new (pointer, length) episode
+                        return False
+
+                    def target(xr, fn=fn):
+                        bid_ = next((bb["id"] for bb in fn.blocks for i_, l_, e_ in cu.block_exprs(bb) if e_ is xr), None)
+                        return cu.success_ret(xr) and not (bid_ is not None and cu.ret_is_error(gf, bid_, xr))
+                    esc = cu.escapes(fn, (b["id"], idx), clears, exempt_edge=nonnull_edge, is_target=target)
+                    f_ = None
+                    if esc is not None:
+                        f_ = Finding(PROP, rid, fn.name, "%s left describing a NULL buffer" % pp(L)[:40],
+                                     "%s:%s %s(): %s = %s(...%s...) - on the path where the allocation fails (via lines %s) the function "
+                                     "returns at line %s without an error and without clearing %s: a later user copies that many bytes "
+                                     "from / to the NULL %s" % (fn.relfile, ln, fn.name, pp(l)[:40], r.get("fn"), pp(L)[:30],
+                                                               [p_[1] for p_ in esc[-6:-1]], esc[-1][1], pp(L)[:40], pp(l)[:40]),
+                                     file=fn.relfile, line=ln)
+                    res.instance(rid, "%s:%s %s sized by %s" % (fn.name, ln, pp(l)[:40], pp(L)[:40]), esc is None, finding=f_)
+    res.floor(rid, 15)
